@@ -49,7 +49,7 @@ def gen_history(rng, maxops):
                 classes.append("tilde")
             if not padded or sanitize:
                 classes.append("ydia")
-            s = V.rand_string(rng, 10, tuple(classes))
+            s = V.rand_string(rng, 10 if rng.random() < 0.97 else rng.choice([64, 255, 256, 300, 2000]), tuple(classes))
             L = len(s) + (rng.randrange(0, 5) if padded else 0)
             ops.append(("add_fixed_encoded_string" if encoded else "add_fixed_string", s, L, padded))
     if rng.random() < 0.5:
